@@ -62,7 +62,9 @@ def parse_out(s):
     p = s.split()
     if p[0] in ("C", "I"):
         return {"kind": p[0], "nf": int(p[1]), "fn": int(p[2]), "id": None if p[3] == "-" else int(p[3]), "fill": int(p[4]),
-                "mt": int(p[5]), "msg": p[6] == "1", "data": b"" if p[7] == "-" else bytes.fromhex(p[7]), "msghash": p[8], "variant": p[9] if len(p) > 9 else "-"}
+                "mt": int(p[5]), "msg": p[6] == "1", "data": b"" if p[7] == "-" else bytes.fromhex(p[7]), "msghash": p[8], "variant": p[9] if len(p) > 9 else "-",
+                "channel": (None if p[10] == "-" else int(p[10])) if len(p) > 10 else None, "talker": p[11] if len(p) > 11 else "?",
+                "rtype": p[12] if len(p) > 12 else "?"}
     if p[0] == "E":
         return {"kind": "E", "sub": p[1], "args": p[2:]}
     return {"kind": "P", "msg": " ".join(p[1:])}
